@@ -94,7 +94,7 @@ pub enum SudoMsg {
     /// emulate the storage of a pre-0.14 token: no spender map, old stored version
     Legacy {},
 }
-fn w_sudo(deps: DepsMut, _env: Env, msg: SudoMsg) -> Result<Response, StdError> {
+fn w_sudo(deps: DepsMut, env: Env, msg: SudoMsg) -> Result<Response, StdError> {
     match msg {
         SudoMsg::Legacy {} => {
             // namespace of Map::new("allowance_spender"): length-prefixed
@@ -110,7 +110,9 @@ fn w_sudo(deps: DepsMut, _env: Env, msg: SudoMsg) -> Result<Response, StdError> 
             for k in keys {
                 deps.storage.remove(&k);
             }
-            cw2::set_contract_version(deps.storage, "crates.io:cw20-base", "0.13.4")?;
+            // any released version below 0.14.0 (single- and double-digit minors: a string comparison would misorder them)
+            let v = ["0.13.4", "0.9.1", "0.10.0", "0.2.3", "0.13.0"][(env.block.height % 5) as usize];
+            cw2::set_contract_version(deps.storage, "crates.io:cw20-base", v)?;
             Ok(Response::new())
         }
     }
@@ -202,6 +204,15 @@ pub struct World {
 }
 
 const ANOMALY_ID: usize = 999_999;
+
+/// the token contract with the migrate entry point and the storage-downgrade hook (used by the paging walks)
+pub fn legacy_capable_code(app: &mut App) -> u64 {
+    app.store_code(Box::new(
+        ContractWrapper::new(cw20_base::contract::execute, cw20_base::contract::instantiate, cw20_base::contract::query)
+            .with_migrate(w_migrate)
+            .with_sudo(w_sudo),
+    ))
+}
 
 impl World {
     pub fn new(users: usize) -> World {
@@ -632,7 +643,8 @@ pub fn generate(seed: u64, case: u64, max_steps: usize) -> Ran {
         }
     }
     let total: u128 = balances.iter().fold(0u128, |a, (_, x)| a.saturating_add(x.u128()));
-    let minter = match r.below(10) {
+    let minter = match if big && r.chance(1, 3) { 99 } else { r.below(10) } {
+        99 => Some((pick_arg(&mut r, n), Some(Uint128::MAX))), // the cap at the very edge of u128
         0 | 1 => None,
         2..=4 => Some((pick_arg(&mut r, n), None)),
         5..=7 => Some((pick_arg(&mut r, n), Some(Uint128::new(total.saturating_add(r.below(500) as u128))))),
@@ -718,12 +730,25 @@ pub fn generate(seed: u64, case: u64, max_steps: usize) -> Ran {
                 if big {
                     hs.extend_from_slice(&edge);
                 }
-                (s, Op::Mint { to: pick_arg(&mut r, n), n: pick_amount(&mut r, &hs) })
+                if big && r.chance(1, 3) {
+                    // just past the u128 edge of the supply, to an account that can still hold it
+                    let small = cur.accounts.iter().min_by_key(|(_, b)| *b).map(|(a, _)| *a).unwrap_or(any);
+                    (s, Op::Mint { to: Arg::Id(small), n: Uint128::new((u128::MAX - cur.supply).saturating_add(1 + r.below(20) as u128)) })
+                } else {
+                    (s, Op::Mint { to: pick_arg(&mut r, n), n: pick_amount(&mut r, &hs) })
+                }
             }
             39..=52 => {
-                let hs = [balance_of(holder), r.below(500) as u128, if big { u128::MAX } else { 77 }];
-                let sp = pick_arg(&mut r, n);
-                (holder, Op::Inc { sp, n: pick_amount(&mut r, &hs), e: pick_exp(&mut r, h, t) })
+                // topping up an allowance that was drawn down to exactly zero (its record and expiry are still stored)
+                let zeros: Vec<_> = cur.owner.iter().filter(|e| e.1.amt == 0).cloned().collect();
+                if !zeros.is_empty() && r.chance(1, 2) {
+                    let e = r.pick(&zeros).clone();
+                    ((e.0).0, Op::Inc { sp: Arg::Id((e.0).1), n: pick_amount(&mut r, &[5, 40]), e: if r.chance(2, 3) { None } else { pick_exp(&mut r, h, t) } })
+                } else {
+                    let hs = [balance_of(holder), r.below(500) as u128, if big { u128::MAX } else { 77 }];
+                    let sp = pick_arg(&mut r, n);
+                    (holder, Op::Inc { sp, n: pick_amount(&mut r, &hs), e: pick_exp(&mut r, h, t) })
+                }
             }
             53..=61 => {
                 if !cur.owner.is_empty() && r.chance(5, 6) {
